@@ -45,6 +45,9 @@ type Case struct {
 	FSnap  bool   `json:"fSnap"`
 	// the follower process has been running before (its cache object remembers the id it followed)
 	FWarm bool `json:"fWarm"`
+	// FarAhead: the follower is ahead of the leader by more than 10 MiB (a former leader that rejoins behind a lagging new one); its
+	// cache then uses 1 MiB segments
+	FarAhead bool `json:"farAhead,omitempty"`
 	// interruption: the server side stream fails after this many messages of the first session (0 = never); enumerated by the property
 	CutAfter int `json:"cutAfter"`
 	// FailoverAtCall n > 0: when the follower's n-th request of the first session arrives, the source has just failed over with a partial
@@ -75,6 +78,10 @@ func genCase(t *rapid.T) Case {
 		c.FLeft, c.FRight = c.LLeft, c.LRight
 	case "ahead":
 		c.FLeft, c.FRight = c.LLeft, c.LRight+rapid.Int64Range(1, 300).Draw(t, "ahead")
+		if rapid.IntRange(0, 3).Draw(t, "farAhead") == 0 {
+			c.FarAhead = true
+			c.FRight = c.LRight + 10<<20 + rapid.Int64Range(1, 300000).Draw(t, "farAheadBy")
+		}
 		c.LLive = 0 // otherwise the leader may overtake the follower before it connects and "ahead" is no longer true
 	case "behind":
 		// the follower's position is older than anything the leader still holds
@@ -239,7 +246,11 @@ func run(c Case) (fs []failure, inconc string, facts map[string]bool, msgs int) 
 		fdir = base + "/follower"
 		os.MkdirAll(fdir, 0o755)
 	}
-	F := cache.Open(c.FollowerDisk, fdir, 4096, -1)
+	fLog := int64(4096)
+	if c.FarAhead {
+		fLog = 1 << 20
+	}
+	F := cache.Open(c.FollowerDisk, fdir, fLog, -1)
 	defer func() { F.Close() }()
 	var flin *cache.Lineage
 	switch c.FKind {
@@ -271,7 +282,7 @@ func run(c Case) (fs []failure, inconc string, facts map[string]bool, msgs int) 
 		if !c.FWarm && c.FollowerDisk {
 			// a freshly started follower process: nothing remembered but the directory
 			F.Close()
-			F = cache.Open(true, fdir, 4096, -1)
+			F = cache.Open(true, fdir, fLog, -1)
 		}
 	}
 	preID := F.C.RunId()
@@ -477,6 +488,7 @@ func check(t pbt.TB, c Case) {
 	for k := range facts {
 		st.Class(k)
 	}
+	st.ClassIf(c.FarAhead, "follower-ahead-by-more-than-10MiB")
 	report(base, fs)
 	nt := false
 	if msgs > 40 {
